@@ -196,19 +196,30 @@ def relock(pid):
 
 # ----------------------------------------------------------------------------- builds
 def build_harness(release=False):
-    """(Re)build the harness against /repo's current working tree, hooks on."""
+    """(Re)build the harness against /repo's current working tree, hooks on.
+    If some binary does not compile, the others are still built one by one (a broken
+    per-property binary must not take the other properties' checks down)."""
     h = ROOT / "harness"
+    env = {"RUSTFLAGS": f"--cfg {GUARD}", "CARGO_TARGET_DIR": str(CARGO_TARGET)}
+    rel = ["--release"] if release else []
     with Lock("cargo"):
         lockfile = h / "Cargo.lock"
         src = (REPO / "Cargo.lock").read_text()
-        # keep our own entry: copy the repo lock only when ours is missing
         if not lockfile.exists():
             lockfile.write_text(src)
-        cmd = ["cargo", "build", "--offline", "--bins"] + (["--release"] if release else [])
-        rc, out = sh(cmd, cwd=h, timeout=1500, env={"RUSTFLAGS": f"--cfg {GUARD}", "CARGO_TARGET_DIR": str(CARGO_TARGET)})
+        rc, out = sh(["cargo", "build", "--offline", "--bins"] + rel, cwd=h, timeout=1500, env=env)
         if rc != 0 and "Cargo.lock" in out:
             lockfile.write_text(src)
-            rc, out = sh(cmd, cwd=h, timeout=1500, env={"RUSTFLAGS": f"--cfg {GUARD}", "CARGO_TARGET_DIR": str(CARGO_TARGET)})
+            rc, out = sh(["cargo", "build", "--offline", "--bins"] + rel, cwd=h, timeout=1500, env=env)
+        if rc != 0:
+            failed = []
+            for b in sorted((h / "src" / "bin").glob("*.rs")):
+                rc1, out1 = sh(["cargo", "build", "--offline", "--bin", b.stem] + rel, cwd=h, timeout=1500, env=env)
+                if rc1 != 0:
+                    failed.append(b.stem)
+                    out += f"\n--- bin {b.stem} failed ---\n" + out1[-1500:]
+            log(f"harness: binaries that do not build: {failed}")
+            return ("prog" not in failed and len(failed) < len(list((h / "src" / "bin").glob("*.rs")))), out[-6000:]
     return rc == 0, out[-4000:]
 
 
